@@ -83,6 +83,23 @@ Section Arith.
     repeat (split; [assumption|]). split; [|exact H10].
     unfold consumed. rewrite H9, calls_draws_ip. lia.
   Qed.
+
+  (** every ACCEPTED table design: the hypothesis of [gen_table] is what the constructor validated, and the number of simulated
+      individuals is the stored [patient_number] *)
+  Lemma gen_table_accepted nsrc d ps tp o :
+    construct d = Ok ps -> d_visit_type d = Some VtDataframe ->
+    gen_generate nsrc VtDataframe ps tp = GOk o ->
+    exists f, ps = [("patient_number", VInt (Z.of_nat (n_groups f))); ("df_visits", VFrame f)] /\
+      List.length (go_ages o) = n_groups f /\ map fst (go_ages o) = table_ids f /\ ages_wellformed T key o /\
+      (forall id ks, In (id, ks) (go_ages o) ->
+         forall k, In k ks <-> exists q, In (IdStr id, Some q) (rows f) /\ k = key 3%Z (ofQ q)) /\
+      consumed T tp o = ((2 + nsrc) * n_groups f)%nat.
+  Proof.
+    intros C V H. destruct (accepted_table d ps C V) as (f & -> & Hn).
+    destruct (gen_table nsrc _ tp o H Hn) as (f' & E & _ & _ & Hp & Hi & _ & Hl & Hw & Ha & Hc & _).
+    simpl in E. injection E as <-. exists f. rewrite Hp in Ha.
+    split; [reflexivity|]. split; [exact Hl|]. split; [exact Hi|]. split; [exact Hw|]. split; [exact Ha | exact Hc].
+  Qed.
 End Arith.
 
 (* ------------------------------------------------------------------------------------------ *)
